@@ -12,6 +12,11 @@
    have classes of their own.  Contexts: with / without a prior call that left return data, inside a read-only frame
    or not, ample / tiny gas.
 
+   The CODE a jump executes in is an operand too (classes "tailop", "tailm", "padr", "clen"): how the byte string ends -
+   with a PUSHn whose data is cut off by the end of the code after m of its n bytes (n, m on the edges of the 8-byte
+   groups a jump-destination analysis works in), at every length modulo 8, short or far longer than any code the platform
+   stores.  A destination is valid iff it is a JUMPDEST byte that is not PUSH data - whatever follows it in the code.
+
    Numbers are 256-bit naturals (little-endian digit vectors, base 2^16: TLC integers have 32 bits), so that the
    demands are stated with EXACT arithmetic - a memory range ends at off + len, return data is in bounds iff
    off + len <= N - and not with the arithmetic of some machine word. *)
@@ -102,7 +107,25 @@ AC == {"R", "D", "dirtyD", "dirtyR", "U", "self", "fresh", "zero", "pre1", "pre4
 \* jump destinations: the JUMPDEST, the byte behind it, a 0x5b byte that is push data, the edges of the code, and the
 \* JUMPDEST plus a multiple of a machine word (a destination is the whole 256-bit value)
 JC == {"dest", "dest+1", "pushdata", "0", "1", "N-1", "N", "N+1", "2^32-1", "2^32", "2^32+dest", "2^63", "2^63+dest",
-       "2^64-1", "2^64", "2^64+dest", "2^128", "2^255", "2^255+dest", "2^256-1"}
+       "2^64-1", "2^64", "2^64+dest", "2^128", "2^255", "2^255+dest", "2^256-1",
+       "taildata"}                                              \* a 0x5b byte that is data of the PUSH the code ends with
+\* how the code ends: the last instruction is PUSHn ("none": the program's own last byte) ...
+TOC == {"none", "1", "2", "7", "8", "9", "15", "16", "17", "23", "24", "25", "31", "32"}
+TailP(c) == CASE c = "none" -> 0 [] c = "1" -> 1 [] c = "2" -> 2 [] c = "7" -> 7 [] c = "8" -> 8 [] c = "9" -> 9 [] c = "15" -> 15 [] c = "16" -> 16
+              [] c = "17" -> 17 [] c = "23" -> 23 [] c = "24" -> 24 [] c = "25" -> 25 [] c = "31" -> 31 [] c = "32" -> 32
+\* ... of whose n data bytes m are there (each a 0x5b byte); the code length modulo 8; short, or 40 000 bytes longer
+TMC == {"0", "1", "P-1", "P"}
+TailM(p, c) == CASE c = "0" -> 0 [] c = "1" -> 1 [] c = "P-1" -> p - 1 [] c = "P" -> p
+PRC == {"0", "1", "2", "3", "4", "5", "6", "7"}
+LNC == {"short", "long"}
+PlainTail == <<"none", "0", "0", "short">>
+\* (every number of present bytes once)
+TailOK(t) == /\ t[1] \in TOC /\ t[2] \in TMC /\ t[3] \in PRC /\ t[4] \in LNC
+             /\ (t[1] = "none" => t = PlainTail)
+             /\ (t[2] = "1" => TailP(t[1]) >= 3) /\ (t[2] = "P-1" => TailP(t[1]) >= 2)
+TailRoles == {"tailop", "tailm", "padr", "clen"}
+\* destinations that speak about the end of the code
+JCT == {"dest", "taildata", "N-1", "N"}
 WV == {"0", "1", "2^255", "2^256-1"}                            \* stored words
 CV == {"0", "1", "2^32", "2^64", "2^255", "2^256-1"}            \* jump conditions: non-zero above every machine word
 
@@ -135,8 +158,8 @@ Roles(op) ==
     [] op = "CREATE" -> <<"value", "moff", "len">>
     [] op \in Call7 -> <<"gas", "addr", "value", "moff", "len", "moff", "len">>
     [] op \in Call6 -> <<"gas", "addr", "moff", "len", "moff", "len">>
-    [] op = "JUMP" -> <<"jdest">>
-    [] op = "JUMPI" -> <<"jdest", "word">>
+    [] op = "JUMP" -> <<"jdest", "tailop", "tailm", "padr", "clen">>
+    [] op = "JUMPI" -> <<"jdest", "word", "tailop", "tailm", "padr", "clen">>
     [] op \in {"SLOAD"} \cup Arith1 -> <<"word">>
     [] op = "SSTORE" -> <<"word", "word">>
     [] op \in {"BALANCE", "EXTCODESIZE", "SELFDESTRUCT"} -> <<"addr">>
@@ -153,14 +176,19 @@ BaseN(op, i, env) ==
   LET r == Roles(op)[i] IN
   CASE r = "moff" -> env.ms [] r = "gas" -> 2300 [] r = "value" -> env.bal [] r = "word" -> 256
     [] r \in {"len", "doff"} -> SrcLen(op, env) [] OTHER -> 0
-IsNum(op, i) == Roles(op)[i] \notin {"addr", "jdest"}
+IsNum(op, i) == Roles(op)[i] \notin {"addr", "jdest"} \cup TailRoles
+TailOf(op, cls) == IF op = "JUMP" THEN SubSeq(cls, 2, 5) ELSE IF op = "JUMPI" THEN SubSeq(cls, 3, 6) ELSE PlainTail
 \* the operand values (Zero for the symbolic classes)
 Vals(op, cls, env) == [i \in 1..Len(cls) |-> IF IsNum(op, i) THEN Val(cls[i], BaseN(op, i, env)) ELSE Zero]
 WellFormed(op, cls, env) ==
   /\ op \in AllOps /\ Len(cls) = Len(Roles(op))
   /\ \A i \in 1..Len(cls) : CASE Roles(op)[i] = "addr" -> cls[i] \in AC
                               [] Roles(op)[i] = "jdest" -> cls[i] \in JC
+                              [] Roles(op)[i] \in TailRoles -> TRUE
                               [] OTHER -> ClassOK(cls[i], BaseN(op, i, env))
+  /\ op \in {"JUMP", "JUMPI"} => LET t == TailOf(op, cls) IN
+                                   /\ TailOK(t)
+                                   /\ (cls[1] = "taildata" => t[1] # "none" /\ TailM(TailP(t[1]), t[2]) >= 1)
 
 \* ------------------------------------------------------------------ what the property demands
 \* memory ranges <<offset, length>> the opcode touches; a range of length 0 touches nothing, wherever it lies
